@@ -164,6 +164,7 @@ type Request struct {
 type Gor struct {
 	Name   string
 	Op     bool // started through Controller.Go (its end is observed); goroutines spawned by the code under test are not
+	bg     bool // named by Collect ("bg<n>"): spawned by the code under test
 	goid   uint64
 	Done   bool
 	Parked *Request
@@ -372,6 +373,7 @@ func (c *Controller) Collect() (opts []Option, parked, blockedInCode int, unfini
 	sort.Slice(unknown, func(i, j int) bool { return unknown[i].goid < unknown[j].goid })
 	for _, g := range unknown {
 		g.Name = "bg" + strconv.Itoa(c.nextBg)
+		g.bg = true
 		c.nextBg++
 		c.order = append(c.order, g)
 	}
@@ -405,13 +407,42 @@ func (c *Controller) Collect() (opts []Option, parked, blockedInCode int, unfini
 		if n < 1 {
 			n = 1
 		}
+		// goroutines the code under test spawned itself ("bg<n>", numbered by creation) are interchangeable workers
+		// as far as the harness can tell: which of two idle pool workers picks up a task is decided inside code the
+		// scheduler does not own. Their options carry no worker number and are listed sorted by label, so that the
+		// decision list of a step does not depend on that assignment.
+		name := g.Name
+		if g.bg {
+			name = "bg"
+		}
 		for v := 0; v < n; v++ {
-			l := g.Name + ":" + r.Kind.String() + ":" + r.Label
+			l := name + ":" + r.Kind.String() + ":" + r.Label
 			if n > 1 {
 				l += "=" + strconv.Itoa(v)
 			}
 			opts = append(opts, Option{Req: r, Variant: v, Label: l})
 		}
+	}
+	first := len(opts)
+	for i, o := range opts {
+		if o.Req.G.bg {
+			first = i
+			break
+		}
+	}
+	// registered (named) goroutines come first in c.order only as long as no background goroutine was registered
+	// before them; sort the background options among themselves wherever they are
+	var idx []int
+	var bgo []Option
+	for i := first; i < len(opts); i++ {
+		if opts[i].Req.G.bg {
+			idx = append(idx, i)
+			bgo = append(bgo, opts[i])
+		}
+	}
+	sort.SliceStable(bgo, func(i, j int) bool { return bgo[i].Label < bgo[j].Label })
+	for k, i := range idx {
+		opts[i] = bgo[k]
 	}
 	return
 }
